@@ -280,9 +280,15 @@ def case_hist(rec, case, check_every=True):
     return d, True
 
 
-def sym_marray(rank, L, space, salt=0):
+LABELS = {'rev-ints': lambda r: list(range(r))[::-1], 'shift-ints': lambda r: list(range(1, r + 1)), 'names': lambda r: ['solv', 'poly', 'ion', 'np'][:r]}
+
+
+def sym_marray(rank, L, space, salt=0, labels=None):
     import pyPRISM
-    M = pyPRISM.MatrixArray(length=L, rank=rank, space=space)
+    if labels is None:
+        M = pyPRISM.MatrixArray(length=L, rank=rank, space=space)
+    else:           # type labels that are integers but not their own positions, or names in non-alphabetical order
+        M = pyPRISM.MatrixArray(length=L, rank=rank, space=space, types=LABELS[labels](rank))
     x = np.arange(1, L + 1, dtype=float)
     for i in range(rank):
         for j in range(i, rank):
@@ -308,7 +314,7 @@ def case_marray(rec, case):
         dst_ = S.Fourier if direction == 'to_fourier' else S.Real
         fn = d.MatrixArray_to_fourier if direction == 'to_fourier' else d.MatrixArray_to_real
         one = d.to_fourier if direction == 'to_fourier' else d.to_real
-        M = sym_marray(rank, L, src, salt=case.get('salt', 0))
+        M = sym_marray(rank, L, src, salt=case.get('salt', 0), labels=case.get('labels'))
         layout = case.get('layout', 'C')
         if layout != 'C' and rank >= 2:
             # the same numbers in an array the caller allocated differently (Fortran order / a sub-block of a larger array)
@@ -498,11 +504,14 @@ def run(rec, tier, seed):
                 for dom in (['dr', 0.1], ['dk', 0.05]):
                     case_marray(rec, {'kind': 'marray', 'rank': rank, 'length': L, 'dom': dom})
                 if rank >= 2:
+                    for lab in LABELS:
+                        case_marray(rec, {'kind': 'marray', 'rank': rank, 'length': L, 'dom': ['dr', 0.1], 'labels': lab})
                     for layout in ('F', 'block'):
                         case_marray(rec, {'kind': 'marray', 'rank': rank, 'length': L, 'dom': ['dr', 0.1], 'layout': layout})
     rec.note('alphabets', {'lengths': [1, maxlen], 'spacings': SPACINGS + extra, 'constructors': ['dr', 'dk'],
                            'setter_ops': SET_OPS, 'starts': STARTS,
-                           'matrixarray_data_layouts': ['C (allocated by the class)', 'Fortran order', 'sub-block of a larger array']})
+                           'matrixarray_data_layouts': ['C (allocated by the class)', 'Fortran order', 'sub-block of a larger array'],
+                           'matrixarray_type_labels': ['default', 'integers in reverse order', 'integers from 1', 'names']})
     rec.note('bounds', {'bfs_depth': bdepth, 'undeduplicated_sequence_depth': sdepth})
     rec.sample({'kind': 'grid', 'length': 100, 'by': 'dr', 'h': 0.1})
     rec.sample({'kind': 'hist', 'start': ['dr', 0.1, 16], 'ops': [['length', 100], ['dk', 0.2]]})
